@@ -33,7 +33,9 @@ Bodies(n) == IF n = 0 THEN {Leaf("x"), Leaf("y")}
                   T \cup {Un(o, a) : o \in {"neg", "scal", "adds", "matvec", "mprod"}, a \in T}
                     \cup {Bin(o, a, b) : o \in {"add", "sub", "mul"}, a \in T, b \in Bodies(0)}
 
-Heads == {"id", "slice", "cat", "pad", "kron", "diag", "full", "bcast"}     \* bcast: B + w with w of order d-1 (broadcast)
+Heads == {"id", "slice", "ell", "rslice", "cat", "pad", "kron", "diag", "full", "bcast"}
+\* slice: integer on the first mode; ell: t[...] (documented as a copy); rslice: t[0:n-1, ...] (range slice with Ellipsis);
+\* bcast: B + w with w of order d-1 (broadcast)
 Reds == {"sum", "sum0", "dot", "norm", "norm2", "item", "mask", "bilinear", "wsum"}
 
 \* typing: which reducer applies to which head's result
